@@ -148,7 +148,7 @@ Theorem C12_gradient_wrt_representations_agree : forall q gf rg dg d (ap : bool)
 Proof. exact gradient_wrt_array_agrees. Qed.
 Print Assumptions C12_gradient_wrt_representations_agree.
 
-(* inside the excluded class (in either state of the tree): domain f = 2p+1 with imap and
+(* inside the excluded class (today; with the tag stripped -- q_fixed -- the right values come back): domain f = 2p+1 with imap and
    gradient = direction*2, F(f) = A f^2 with gradient callable 2 wrt (A^T d): wrt = [1;2;3] as ndarray gives
    [12;20;-84], as CUQIarray gives imap of it *)
 Theorem C12_gradient_wrt_representations_refuted :
@@ -158,7 +158,7 @@ Theorem C12_gradient_wrt_representations_refuted :
   check_out (gradient q_today w5_gf (g_default1d 2) w5_dg (GiVec w5_d) (GiArr w5_dg true w5_w) true true)
             (ObsVal 1 [[11#2; 19#2; -85#2]]) = true /\
   check_out (gradient q_fixed w5_gf (g_default1d 2) w5_dg (GiVec w5_d) (GiArr w5_dg true w5_w) true true)
-            (ObsVal 1 [[11#2; 19#2; -85#2]]) = true.
+            (ObsVal 1 [[12#1; 20#1; -84#1]]) = true.
 Proof. exact witness_tagleak. Qed.
 Print Assumptions C12_gradient_wrt_representations_refuted.
 
@@ -259,6 +259,67 @@ Theorem C12_gradient_direction_representations_agree : forall q gf rg dg d (ap d
   gradient q gf rg dg (GiVec d) (GiVec w) false true = gradient q gf rg dg (GiVec d) (GiVec w) true true.
 Proof. exact gradient_direction_forms_agree. Qed.
 Print Assumptions C12_gradient_direction_representations_agree.
+
+(* direction AND wrt both given as CUQIarrays (each as parameters or function values, any flags), or only wrt:
+   the values of the plain-vector call.  The guard is needed only while gradient hands wrt.funvals on with its
+   CUQIarray tag (q_tagleak): with the tag stripped (fixes/C12_gradient_tag_strip.diff) it is void. *)
+Theorem C12_gradient_array_forms_agree : forall q gf rg dg (dplain : bool) d (apd dflag : bool) x (apw wflag : bool) w,
+  has_gradient_func gf = true -> plain1d (g_cls rg) = true ->
+  (has_grad dg = true \/ identity_class (g_cls dg) = true) ->
+  eq_confused q rg dg = false ->
+  (if apw then Ok x else g_fun2par dg x) = Ok w ->
+  (if apw then g_par2fun dg x else Ok x) = g_par2fun dg w ->
+  (q_tagleak q = true ->
+   forall gg df wf gv flat sel, g_grad dg = Some gg -> run_gfun gf (fun_is_2d rg) df wf = Ok (gv, flat, sel) ->
+     (if dplain then tag_leaks sel (ggrad_sel gg) else tag_leaks_both sel (ggrad_sel gg)) = false) ->
+  out_values (gradient q gf rg dg (if dplain then GiVec d else GiArr rg apd d) (GiArr dg apw x) (if dplain then true else dflag) wflag) =
+  out_values (gradient q gf rg dg (GiVec d) (GiVec w) true true).
+Proof. exact gradient_array_forms_agree. Qed.
+Print Assumptions C12_gradient_array_forms_agree.
+
+Theorem C12_gradient_array_forms_agree_fixed : forall gf rg dg (dplain : bool) d (apd dflag : bool) x (apw wflag : bool) w,
+  has_gradient_func gf = true -> plain1d (g_cls rg) = true ->
+  (has_grad dg = true \/ identity_class (g_cls dg) = true) ->
+  (if apw then Ok x else g_fun2par dg x) = Ok w ->
+  (if apw then g_par2fun dg x else Ok x) = g_par2fun dg w ->
+  out_values (gradient q_fixed gf rg dg (if dplain then GiVec d else GiArr rg apd d) (GiArr dg apw x) (if dplain then true else dflag) wflag) =
+  out_values (gradient q_fixed gf rg dg (GiVec d) (GiVec w) true true).
+Proof.
+  intros. apply gradient_array_forms_agree; try assumption; [apply eq_confused_fixed | intros Q; discriminate Q].
+Qed.
+Print Assumptions C12_gradient_array_forms_agree_fixed.
+
+(* StepExpansion: par2fun is the linear map of the 0/1 matrix S = step_jac (node k takes the parameter of the step
+   that owns it) and the step-sum gradient used with it is S^T -- for every index family that is the partition by
+   `owner` (step_wf; checked by vm_compute for every StepExpansion the correspondence runs) *)
+Theorem C12_step_par2fun_is_linear : forall nfun idx p, length p = length idx ->
+  step_par2fun nfun idx p = qmatvec (step_jac nfun idx) p.
+Proof. exact step_par2fun_is_matvec. Qed.
+Print Assumptions C12_step_par2fun_is_linear.
+
+Theorem C12_step_gradient_is_transpose : forall nfun idx v w, step_wf nfun idx = true -> length v = nfun ->
+  ggrad_apply (GGStepSum idx) v w = qmattvec (length idx) (step_jac nfun idx) v.
+Proof. exact step_gradient_is_transpose. Qed.
+Print Assumptions C12_step_gradient_is_transpose.
+
+(* chain rule through a StepExpansion domain with that gradient, no assumed law: (J_F(S w) S)^T direction *)
+Theorem C12_gradient_chain_step : forall q gf rg dg n A csF idx pj sq d w,
+  poly_gfun gf n A csF -> step_geo dg n idx pj sq -> plain1d (g_cls rg) = true ->
+  step_wf n idx = true -> wf_mat n A -> length w = length idx -> length d = length A ->
+  gradient q gf rg dg (GiVec d) (GiVec w) true true =
+  Ok (OutVec (qmattvec (length idx)
+                (qmatmul (length idx) (poly_jac A (pderiv csF) (step_par2fun n idx w)) (step_jac n idx)) d) false).
+Proof. exact gradient_chain_step. Qed.
+Print Assumptions C12_gradient_chain_step.
+
+(* non-vacuity: the index family of StepExpansion(4 nodes, 2 steps) is well formed; a step geometry and a user
+   geometry derived from Geometry (class KUser, own inverse) satisfy the hypotheses of the two full chain rules *)
+Example C12_chain_geometries_example :
+  step_wf 4 [[0;1];[2;3]]%nat = true /\
+  step_geo (mkGeo KStep 2 4 (CvStep 4 [[0;1];[2;3]]%nat PMax true) None F2Base (Some (GGStepSum [[0;1];[2;3]]%nat)) 0) 4 [[0;1];[2;3]]%nat PMax true /\
+  elementwise_geo (mkGeo KUser 3 3 CvId (Some (zq [1;2]%Z)) (F2Imap [qc (-1#2); qc (1#2)]) (Some (GGDiag (pderiv (zq [1;2]%Z)) SelDirWrt)) 0)
+                  (zq [1;2]%Z) SelDirWrt.
+Proof. repeat split. Qed.
 
 (* an instance of a user subclass of CUQIarray carrying the domain geometry: like a CUQIarray, once the
    re-wrapping decision is made by isinstance (q_typeis = false) *)
